@@ -838,7 +838,7 @@ def setup(productName, version=None, prefTags=None, productRoot=None,
                 continue
 
             if eupsenv.shell == "sh" or eupsenv.shell == "zsh":
-                cmd = "unset %s" % (key)
+                cmd = "unset -f %s" % (key)
             elif eupsenv.shell == "csh":
                 cmd = "unalias %s" % (key)
 
